@@ -64,7 +64,9 @@ func refEvalNum(n *ref.N) (ref.Dec, bool) {
 
 func judgeLit(c LitCase) *eng.Fail {
 	// the literal as the whole input, and as the last token of the input
-	for _, bare := range []string{c.Lit, "1 + " + c.Lit} {
+	// (... and after a member access whose name stands on the line after the dot: the one place where the
+	// parser looks ahead, after which the scanner reports malformed literals like anywhere else)
+	for _, bare := range []string{c.Lit, "1 + " + c.Lit, "a.\nb + " + c.Lit} {
 		brt, bv := ref.Parse([]byte(bare))
 		bo := safeParse([]byte(bare))
 		if bo.panicked {
@@ -301,6 +303,16 @@ func runC12(w *eng.W) {
 		"0." + strings.Repeat("0", 1000) + "1e1001", "1" + strings.Repeat("0", 799) + "e-799", "1" + strings.Repeat("0", 800) + "e-800", "1" + strings.Repeat("0", 801) + "e-801", strings.Repeat("12345", 400) + "e-1995", "7" + strings.Repeat("0", 5000) + "E-5000"} {
 		if w.Take() {
 			emit("long-compensated", lit)
+		}
+	}
+	// literals of more than 34 digits next to a tie between two float64 values: the float64 handed back
+	// for the whole formula is the nearest to the number written (not to a 34-digit rounding of it)
+	if w.Take() {
+		for _, lit := range []string{"9007199254740993.0000000000000000001", "9007199254740992.9999999999999999999999999", "9007199254740993.00000000000000000000000000000000000000001",
+			"1.000000000000000111022302462515654042363166809082031250000001", "1.00000000000000011102230246251565404236316680908203124999999", "1.00000000000000011102230246251565404236316680908203125",
+			"4503599627370496.50000000000000000000000000000000001", "4503599627370497.4999999999999999999999999999999999999", "0.500000000000000055511151231257827021181583404541015625000000000000000001",
+			"18014398509481985.999999999999999999999999999", "18014398509481986.0000000000000000000000000000001"} {
+			emit("float-ties", lit)
 		}
 	}
 	// exponents of 18 to 25 digits around the edges of 64-bit integers
